@@ -47,6 +47,15 @@ CHECKS = {
             "hook puts the logical end next to the red zone; Memory::Copy/SetToZero are enumerated for every length "
             "0..4096 at all 32x32 misalignments in scalar, SSE2 and AVX2 builds.",
             "histories are sampled; models are the C++ standard containers", "3/C14"),
+    "C13": ("model-based runtime monitor (ordered-map model compared after every step) under ASan+UBSan+ledger with adversarial key pools",
+            "Random histories over HArray (three value types) and HList with colliding / empty / NUL-containing keys; after "
+            "every operation iteration order and all lookups of the whole key pool are compared with the model.",
+            "histories are sampled; slot numbers are outside the contract and never compared", "3/C13"),
+    "C15": ("exhaustive small-universe enumeration of comparison operators plus permutation/order monitors on every Sort entry point",
+            "All pairs and triples of the 121-string universe for every operator overload and width, all pairs/triples of a "
+            "50-value pool, all arrays over 4 strings up to length 6 through five sort entry points (incl. <loop sort=>), "
+            "both directions.",
+            "longer strings and larger arrays are sampled", "3/C15"),
 }
 
 PENDING = {}
